@@ -45,7 +45,7 @@ def gen_case(rng, ctx):
         case["scheme"] = gen.scale(ref.PRESETS[name], rng.choice([1.0, 1.0, 2.0, 0.5, 3.0]))
         case["dcls"], case["scls"], case["bucket_id"] = "xlarge", "family:" + name, rng.random() < 0.5
         return case
-    cls, ds = gen.dataset(rng, classes="D1 D2 D2 D3 D3 D4 D5 D6 D7 D8 D22 D22 D17", nmax=9, mmax=7)
+    cls, ds = gen.dataset(rng, classes="D1 D2 D2 D3 D3 D4 D5 D6 D7 D8 D22 D22 D17 D14", nmax=9, mmax=7)
     ds = libx.normalise_raw(ds)
     which = rng.random()
     if which < 0.55:
